@@ -336,6 +336,26 @@ def is_drain_call(res, call):
                 return True
         if len(call.args) >= 2 and _const(call.args[1]) == 0:
             return True
+        return False
+    # a repository helper whose whole body drains its first parameter (`def drain(rows): deque(rows, maxlen=0)`)
+    try:
+        tg = res.resolve_call(call)
+    except Exception:
+        return False
+    from .loader import FuncInfo
+    fis = [t for t in tg if isinstance(t, FuncInfo)]
+    if len(fis) == 1 and len(tg) == 1 and call.args and not isinstance(fis[0].node, ast.Lambda) and fis[0].params:
+        body = [st for st in fis[0].node.body if not (isinstance(st, ast.Expr) and isinstance(st.value, ast.Constant))]
+        p0 = fis[0].params[0]
+        if len(body) == 1:
+            st = body[0]
+            if isinstance(st, ast.Expr) and isinstance(st.value, ast.Call) and st.value.args and \
+                    isinstance(st.value.args[0], ast.Name) and st.value.args[0].id == p0 and \
+                    res.external_name(st.value) in DRAIN_EXTERNALS and is_drain_call(res, st.value):
+                return True
+            if isinstance(st, ast.For) and isinstance(st.iter, ast.Name) and st.iter.id == p0 and \
+                    all(isinstance(b, ast.Pass) for b in st.body) and not st.orelse:
+                return True
     return False
 
 
@@ -617,3 +637,32 @@ def truth_table(sigs_or_paths, atoms_of, n_yields):
             if sat:
                 out.setdefault(tuple(sorted(val.items())), set()).add(n_yields(p))
     return names, out
+
+
+def alpha_text(node, fnode):
+    """Unparsed text of `node` with the local variables of the enclosing function `fnode` (names it assigns, loop targets,
+    except / with names - not its parameters, not attributes, not globals) replaced by $1, $2, ... in order of first appearance:
+    a key for findings that survives the renaming of locals."""
+    import copy
+    locals_ = set()
+    for n in ast.walk(fnode):
+        if isinstance(n, ast.Name) and isinstance(n.ctx, (ast.Store, ast.Del)):
+            locals_.add(n.id)
+        elif isinstance(n, ast.ExceptHandler) and n.name:
+            locals_.add(n.name)
+    a = fnode.args if hasattr(fnode, 'args') else None
+    if a is not None:
+        for x in a.posonlyargs + a.args + a.kwonlyargs + ([a.vararg] if a.vararg else []) + ([a.kwarg] if a.kwarg else []):
+            locals_.discard(x.arg)
+    order = {}
+
+    class T(ast.NodeTransformer):
+        def visit_Name(self, n):
+            if n.id in locals_:
+                if n.id not in order:
+                    order[n.id] = '$%d' % (len(order) + 1)
+                return ast.copy_location(ast.Name(id='V%s' % order[n.id][1:] + '__alpha', ctx=n.ctx), n)
+            return n
+    t = T().visit(copy.deepcopy(node))
+    import re
+    return re.sub(r'V(\d+)__alpha', r'$\1', u(t))
